@@ -17,6 +17,24 @@ static long gen_api(const std::string& op, int i, int j, const std::string& fmt)
         const Top& src = inst(i);
         Top& dst = inst(j); dst = src; gen_stamp(dst, j); return 0;
     }
+    if (op == "move" || op == "moveassign") {
+        // backmp11: move construction / move assignment, then the moved-from machine is destroyed.
+        // back / back11 have no move operations: the same call is a copy, and the source object is retired (kept alive, see F6).
+        static std::vector<std::unique_ptr<Top>> retired;
+        Top& src = inst(i);
+#if defined(VCFG_MP11)
+        if (op == "move") { if (v[j]) retired.push_back(std::move(v[j])); v[j].reset(new Top(std::move(src))); }
+        else { Top& dst = inst(j); dst = std::move(src); }
+        gen_stamp(*v[j], j);
+        v[i].reset();                                   // a moved-from machine can still be destroyed
+#else
+        if (op == "move") { if (v[j]) retired.push_back(std::move(v[j])); v[j].reset(new Top(static_cast<const Top&>(src))); }
+        else { Top& dst = inst(j); dst = static_cast<const Top&>(src); }
+        gen_stamp(*v[j], j);
+        retired.push_back(std::move(v[i]));
+#endif
+        return 0;
+    }
 #if defined(VCFG_SER)
     if (op == "saveload") {       // Boost.Serialization round trip into a freshly constructed machine
         std::stringstream ss(std::ios::in | std::ios::out | std::ios::binary);
